@@ -133,7 +133,7 @@ def run(tier, seed):
         for c, e, o in zip(allc, exps, outs):
             nconf += 1 if e["ok"] else 0
             judge(v, c, e, o)
-        tested = selftest8(allc, exps, outs)
+        tested = selftest8(allc, exps, outs) if not v.violations else []
         # all short strings, and grammar-aware random streams (rule evaluated in the harness)
         agg = []
         for args in (["--exhaustive", "2" if tier == "quick" else "2", "--maxdim", "3"], ["--random", "100000" if tier == "quick" else "10000000", "--seed", str(seed)]):
